@@ -83,6 +83,24 @@ pub fn wrappers(x: &str, cfg: &Cfg, tier: Tier) -> Vec<(String, String, Vec<(Str
         out.push((format!("h{level}"), format!("<h{level}>{x}</h{level}>"), vec![(h1, hn, x.to_string())]));
     }
     out.push(("dl/dd".to_string(), format!("<dl><dd>{x}</dd></dl>"), vec![("  ".to_string(), "  ".to_string(), x.to_string())]));
+    // ordered lists with an item that has no content at all: it renders no line but still
+    // takes a number (and counts for the common marker width)
+    for (st, empties) in [(1i64, vec![1usize]), (8, vec![2]), (-1, vec![0]), (9, vec![0, 1])] {
+        let n = 3;
+        let pre = ol_prefixes(cfg, st, n);
+        let mut items = String::new();
+        let mut parts = vec![];
+        for k in 0..n {
+            if empties.contains(&k) {
+                items.push_str(if k % 2 == 0 { "<li></li>" } else { "<li><p></p></li>" });
+                continue;
+            }
+            let c = if k == n - 1 || (k == 0 && !empties.contains(&0)) { x.to_string() } else { fill[k % 2].to_string() };
+            items.push_str(&format!("<li>{c}</li>"));
+            parts.push((pre[k].0.clone(), pre[k].1.clone(), c));
+        }
+        out.push((format!("ol start={st} with empty items {empties:?}"), format!("<ol start=\"{st}\">{items}</ol>"), parts));
+    }
     let starts: Vec<Option<i64>> = vec![None, Some(-100), Some(-10), Some(-1), Some(0), Some(1), Some(8), Some(9), Some(98), Some(99), Some(999)];
     let counts: Vec<usize> = tier.pick(vec![1, 2, 3, 11], vec![1, 2, 3, 4, 10, 11, 12, 15]);
     for st in &starts {
